@@ -394,6 +394,10 @@ func (m *Mint) MintTokens(mintTokensRequest nut04.PostMintBolt11Request) (cashu.
 
 	var blindedSignatures cashu.BlindedSignatures
 
+	if len(mintTokensRequest.Outputs) == 0 {
+		return nil, cashu.NoOutputsProvided
+	}
+
 	switch mintQuote.State {
 	case nut04.Unpaid:
 		return nil, cashu.MintQuoteRequestNotPaid
@@ -505,6 +509,10 @@ func (m *Mint) MintTokens(mintTokensRequest nut04.PostMintBolt11Request) (cashu.
 // the proofs that were used as input.
 // It returns the BlindedSignatures.
 func (m *Mint) Swap(proofs cashu.Proofs, blindedMessages cashu.BlindedMessages) (cashu.BlindedSignatures, error) {
+	if len(blindedMessages) == 0 {
+		return nil, cashu.NoOutputsProvided
+	}
+
 	var proofsAmount uint64
 	Ys := make([]string, len(proofs))
 	for i, proof := range proofs {
